@@ -29,19 +29,6 @@ type c06Shape struct {
 	flip bool
 }
 
-func polyLoops(s s2.Shape) [][]s2.Point {
-	var out [][]s2.Point
-	for i := 0; i < s.NumChains(); i++ {
-		ch := s.Chain(i)
-		var v []s2.Point
-		for j := 0; j < ch.Length; j++ {
-			v = append(v, s.Edge(ch.Start+j).V0)
-		}
-		out = append(out, v)
-	}
-	return out
-}
-
 func c06ShapesAt(pos string, ctr s2.Point, c *core.Ctx) []c06Shape {
 	d := lattice.Deg
 	loopPts := func(l *s2.Loop) []s2.Point { return append([]s2.Point(nil), l.Vertices()...) }
